@@ -34,6 +34,56 @@ def run_gen(w, op, cfg=None):
     return out, before, after, changed, produced
 
 
+def make_pair(rng, pa, pb):
+    """Op: two generator command lines started at the same time in one folder.  The two parameter sets get
+    different seeds, so each run has a file of its own."""
+    pa, pb = dict(pa), dict(pb)
+    if pa["seed"] == pb["seed"]:
+        pb["seed"] = pa["seed"] + 1
+    return {"op": "gen_pair", "sched": rng.randint(0, 2 ** 32), "p": rng.choice([0.1, 0.3, 0.3, 0.6]),
+            "a": {"op": "gen_cli", "params": pa, "entropy": rng.randint(0, 2 ** 32)},
+            "b": {"op": "gen_cli", "params": pb, "entropy": rng.randint(0, 2 ** 32)}}
+
+
+def run_gen_pair(w, op):
+    """Two generator invocations (op["a"], op["b"]: different parameter sets, hence different files) running at the
+    same time in the same folder."""
+    before = w.fs.snapshot()
+
+    def run(x):
+        if x["op"] == "gen_manual":
+            return ops.gen_manual(w, x["board"], {}, x.get("entropy", 0), False)
+        return ops.gen_cli(w, x["params"], {}, x.get("entropy", 0), False)
+    out_a, res_b = ops.concurrently(w, int(op.get("sched", 0)), float(op.get("p", 0.3)),
+                                    lambda: run(op["a"]), lambda: run(op["b"]), ops.brief)
+    after = w.fs.snapshot()
+    return out_a, res_b, before, after
+
+
+def pair_problem(ctx, op, out_a, res_b, before, after):
+    """(class, message) if one of two concurrent generator runs did not produce exactly the file it produces
+    when run alone on an empty disk, else None."""
+    expected = {}
+    for tag, x, out in (("first", op["a"], out_a), ("second", op["b"], res_b)):
+        what = "`roberta_generator.py %s`" % " ".join(ops.gen_argv(x["params"])[1:]) if x["op"] == "gen_cli" else "create_sg_from_board(...)"
+        if out["status"] != "ok":
+            return "concurrent-run-failed", "%s, run at the same time as another generator run in the same folder, did not finish: %s" % (what, show(out))
+        r = ref_gen(ctx, x)
+        if r["status"] != "ok":
+            continue
+        for rel, data in r["files"].items():
+            expected[rel] = data
+            if after.get(rel) != data:
+                got = after.get(rel)
+                return "concurrent-file-differs", "%s, run at the same time as another generator run in the same folder: %s %s (alone on an empty disk it gets %d bytes %s)" % (
+                    what, rel, "is missing" if got is None else "holds %d bytes %s" % (len(got), h(got)), len(data), h(data))
+    changed = [k for k in after if before.get(k) != after.get(k)]
+    stray = [k for k in game_files(changed) if k not in expected]
+    if stray and len(expected) >= 2:
+        return "concurrent-stray-file", "two concurrent generator runs left game files neither of them writes when run alone: %s" % stray
+    return None
+
+
 def game_files(paths):
     """Generated game files among paths (auxiliary files - dotfiles, other suffixes - are the code's own business)."""
     return sorted(p for p in set(paths) if p.startswith("inputs/") and p.endswith(".py")
